@@ -1,0 +1,12 @@
+//go:build verif
+
+package linker
+
+// VerifEvent is set by package main when built with -tags verif.
+var VerifEvent func(name string, kv ...any)
+
+func verifEvent(name string, kv ...any) {
+	if VerifEvent != nil {
+		VerifEvent(name, kv...)
+	}
+}
